@@ -66,6 +66,18 @@ func (o *signalHandler) addSignalUser(userID uint64, signalID, messageID uint32,
 		contextID: 0,
 	}
 
+	// refuse a user id already in use before anything is
+	// registered on the connection: removing a handler from
+	// within its own close callback would dead lock the end point.
+	o.signalsMutex.RLock()
+	for _, user := range o.signals {
+		if user.userID == userID {
+			o.signalsMutex.RUnlock()
+			return fmt.Errorf("user %d already exists", userID)
+		}
+	}
+	o.signalsMutex.RUnlock()
+
 	e := from.EndPoint()
 	f := func(hdr *net.Header) (bool, bool) {
 		return false, true
@@ -78,14 +90,6 @@ func (o *signalHandler) addSignalUser(userID uint64, signalID, messageID uint32,
 	newUser.contextID = e.MakeHandler(f, q, cl)
 
 	o.signalsMutex.Lock()
-
-	for _, user := range o.signals {
-		if user.userID == userID {
-			o.signalsMutex.Unlock()
-			user.context.EndPoint().RemoveHandler(user.contextID)
-			return fmt.Errorf("user %d already exists", userID)
-		}
-	}
 	o.signals = append(o.signals, newUser)
 	o.signalsMutex.Unlock()
 	return nil
